@@ -82,7 +82,7 @@ def forecasters():
         [("a", NaiveForecaster("last")), ("b", PolynomialTrendForecaster(degree=1))],
         final_regressor=_lin()), mode="req", refit=False)  # documented: final regressor is not updated
     add("grid_naive", lambda: ForecastingGridSearchCV(
-        NaiveForecaster(), cv=SlidingWindowSplitter(fh=1, window_length=3),
+        NaiveForecaster(strategy="mean"), cv=SlidingWindowSplitter(fh=1, window_length=3),
         param_grid={"strategy": ["last", "mean"]}), cost="slow")
     add("ens_of_pipe", lambda: EnsembleForecaster(
         [("p", TransformedTargetForecaster([("d", Detrender(PolynomialTrendForecaster(degree=1))),
